@@ -2,7 +2,9 @@ package harness
 
 import (
 	"bytes"
+	"encoding/base64"
 	"fmt"
+	"sort"
 	"strings"
 
 	ae "github.com/godaddy/asherah/go/appencryption"
@@ -45,6 +47,18 @@ func (w *kWorld) judgeStep(st *kStep, j *kJudge) {
 	}
 	t := st.T
 	skID := ref.SystemKeyID("s", "p", "")
+	if (st.Kind == "dec" || st.Kind == "enc") && len(w.logs) > st.logFrom {
+		needles := map[string][]byte{}
+		for kid, b := range w.reg.KeyBytes {
+			needles[fmt.Sprintf("key#%d", kid)] = b
+		}
+		if st.Rec != nil && len(st.Rec.Payload) >= 8 {
+			needles["payload"] = st.Rec.Payload
+		}
+		if nn, line := scanLogLines(w.logs[st.logFrom:], needles); nn != "" {
+			j.fail("C03", "plaintext-leak-log:"+st.Kind, "%s: plaintext bytes of %s were printed into a log line: %.120q", st.Op, nn, line)
+		}
+	}
 	switch st.Kind {
 	case "dec":
 		j.count("dec")
@@ -455,4 +469,41 @@ func (w *kWorld) skLeakClass(kid int) string {
 		return ""
 	}
 	return leakClass(w.ms)
+}
+
+// scanLogLines looks for >= 8-byte windows of any needle (key bytes, payload) in log lines: raw, hex (both cases),
+// base64 and the decimal list fmt prints for a byte slice. It returns the name of the first needle found.
+func scanLogLines(lines []string, needles map[string][]byte) (string, string) {
+	if len(lines) == 0 {
+		return "", ""
+	}
+	names := make([]string, 0, len(needles))
+	for n := range needles {
+		names = append(names, n)
+	}
+	sort.Strings(names)
+	for _, l := range lines {
+		h := []byte(l)
+		hl := bytes.ToLower(h)
+		for _, nn := range names {
+			nb := needles[nn]
+			if len(nb) < 8 {
+				continue
+			}
+			// whole-value encodings
+			for _, enc := range []string{base64.StdEncoding.EncodeToString(nb), base64.URLEncoding.EncodeToString(nb), base64.RawStdEncoding.EncodeToString(nb)} {
+				if len(enc) >= 11 && bytes.Contains(h, []byte(enc[:len(enc)-len(enc)%4-4])) {
+					return nn, l
+				}
+			}
+			for i := 0; i+8 <= len(nb); i += 4 {
+				win := nb[i : i+8]
+				dec := fmt.Sprint(win)
+				if bytes.Contains(h, win) || bytes.Contains(hl, []byte(fmt.Sprintf("%x", win))) || bytes.Contains(h, []byte(dec[1:len(dec)-1])) {
+					return nn, l
+				}
+			}
+		}
+	}
+	return "", ""
 }
